@@ -47,7 +47,20 @@ def expected_err(h, density):
 def make_1d(rng: random.Random):
     import physt
 
-    kind = rng.choice(["irregular", "regular", "gapped", "single"])
+    kind = rng.choice(["irregular", "regular", "gapped", "single", "radial", "azimuthal"])
+    if kind in ("radial", "azimuthal"):
+        # one-dimensional classes whose bin size is not the bin width (ring area): densities and density errors use the bin size
+        from physt import special_histograms as sp
+
+        n = rng.randint(3, 40)
+        pts = np.array([[rng.uniform(-3, 3), rng.uniform(-3, 3)] for _ in range(n)])
+        with warnings.catch_warnings():
+            warnings.simplefilter("ignore")
+            if kind == "radial":
+                h = sp.radial(pts[:, 0], pts[:, 1], bins=np.array(sorted({0.0, 4.5} | {round(rng.uniform(0.3, 4.0), 2) for _ in range(rng.randint(1, 4))})))
+            else:
+                h = sp.azimuthal(pts[:, 0], pts[:, 1], bins=rng.choice([3, 4, 8]))
+        return h, kind
     if kind == "gapped":
         pairs = gen.gapped_pairs(rng, rng.randint(2, 5))
     elif kind == "single":
@@ -121,9 +134,22 @@ def mpl_1d_case(ctx, index, rng: random.Random):
     ticks = rng.choice([None, None, "center", "edge"])
     if ticks:
         opts["ticks"] = ticks
+    handler_xlim = None
+    if not ticks and rng.random() < 0.2 and hk not in ("gapped",):
+        # the time-tick helper together with an explicit axis window: ticks are the multiples of the unit inside THAT window
+        from physt.plotting.common import TimeTickHandler
+
+        lo_e, hi_e = float(np.asarray(h.bins)[0, 0]), float(np.asarray(h.bins)[-1, 1])
+        span = hi_e - lo_e
+        unit = rng.choice([1, 5, 30, 60])
+        win = (lo_e + 0.25 * span, lo_e + 0.25 * span + unit * rng.choice([2.5, 4.2, 7.9]))
+        opts["tick_handler"] = TimeTickHandler({1: "1s", 5: "5s", 30: "30s", 60: "1m"}[unit])
+        opts["xlim"] = win
+        handler_xlim = (unit, win)
     if hk == "gapped" and (kind == "step" or cumulative or density and cumulative):
         kind = "bar"
-    desc = {"backend": "matplotlib", "kind": kind, "opts": {k: v for k, v in opts.items()}, "bins": np.asarray(h.bins).tolist(), "frequencies": np.asarray(h.frequencies).tolist()}
+    desc = {"backend": "matplotlib", "kind": kind, "opts": {k: (v if not callable(v) else "TimeTickHandler") for k, v in opts.items()}, "class": type(h).__name__,
+            "bins": np.asarray(h.bins).tolist(), "frequencies": np.asarray(h.frequencies).tolist()}
     rec.mon("C20.artists")
     with attach.quiet():
         before = snap.snapshot(h)
@@ -208,6 +234,16 @@ def mpl_1d_case(ctx, index, rng: random.Random):
                 fail("title does not come from the histogram's metadata / override", ["title"], got=ax.get_title(), expected=want_title)
             if (want_x or "") != ax.get_xlabel():
                 fail("x label does not come from the axis name / override", ["xlabel"], got=ax.get_xlabel(), expected=want_x)
+            if handler_xlim:
+                unit, win = handler_xlim
+                tk = np.asarray(ax.get_xticks(), dtype=float)
+                k0, k1 = math.ceil(win[0] / unit - 1e-12), math.floor(win[1] / unit + 1e-12)
+                want = np.array([k * unit for k in range(k0, k1 + 1)], dtype=float)
+                xl = ax.get_xlim()
+                if not close(tk, want) or abs(xl[0] - win[0]) > 1e-9 * (1 + abs(win[0])) or abs(xl[1] - win[1]) > 1e-9 * (1 + abs(win[1])):
+                    rec.mon("C20.ticks")
+                    rec.fail(monitor="C20.ticks", op=f"mpl.{kind}", symptom="time ticks are not the multiples of the unit inside the requested axis window (or the window was not kept)",
+                             diff=["ticks"], detail={**desc, "window": list(win), "unit": unit, "ticks": tk.tolist()[:12], "expected": want.tolist()[:12], "xlim": list(xl)})
             if ticks:
                 tk = np.asarray(ax.get_xticks(), dtype=float)
                 want = centers if ticks == "center" else left
